@@ -125,13 +125,18 @@ def law_L2(rng: random.Random, out: Dict[str, Any]) -> None:
         wire_body = ChunkParser.to_chunks(body or b'', rng.choice([1, 7, 1000]))
     conn_close = rng.random() < 0.4
     no_cl = conn_close and rng.random() < 0.4 and code >= 200
+    if body_ok and not chunked and rng.random() < 0.12:
+        # the barest valid response: a status line, the blank line and a body that ends with the connection - no header field
+        headers, conn_close, no_cl = {}, False, True
+        out['bare'] = True
     want = dict(hmap(list(headers.items())))
     raw = build_http_response(code, version, reason, headers=dict(headers), body=wire_body, conn_close=conn_close, no_cl=no_cl)
     if not chunked and not no_cl:
         want[b'content-length'] = b'%d' % len(wire_body or b'')
     if conn_close:
         want[b'connection'] = b'close'
-    out['cls'] = ('1xx' if code < 200 else 'nobody' if not body else 'chunked' if chunked else 'close' if no_cl else 'cl')
+    out['cls'] = ('1xx' if code < 200 else 'bare-nobody' if out.get('bare') and not body else 'bare' if out.get('bare') else
+                  'nobody' if not body else 'chunked' if chunked else 'close' if no_cl else 'cl')
     out['nontrivial'] = bool(body) or len(headers) >= 2
     out['input'] = {'code': code, 'reason': reason, 'headers': len(headers), 'body_len': len(body or b''),
                     'chunked': chunked, 'no_cl': no_cl, 'conn_close': conn_close}
